@@ -85,6 +85,19 @@ def directed_units(rng, ws, n_each):
                 cand.update({(M >> 1) - 7, (M >> 1) - 6, M - 7, M - 8, (M >> 1) + 1})
             wrapc += [Cfg((str(n), '0'), w, 60, False) for n in sorted(cand) if 0 < n < M]
         units.append((src.replace('write(">");', 'if (n > 3) { a[3] = a[1]; } write(">");'), wrapc))
+    # stores whose right-hand side has effects or faults itself, with the index in and out of range: the index guard comes first,
+    # before the right-hand side has any effect (every element type x storage class x plain / compound assignment)
+    for el, ret, lit, divx in (('int', 'v * 3', '[1, 2, 3, 4]', '10 / j'), ('byte', "'n'", "['a', 'b', 'c', 'd']", '(100 / j) is byte'), ('bool', 'v > 0', '[true, false, true, false]', '(10 / j) > 1')):
+        pre = 'int cnt = 0;\n%s noisy(int v) { write("N"); cnt += 1; return %s; }\n' % (el, ret)
+        dump = 'write(cnt); for (int k = 0; k < a.length; k += 1) { write(a[k]); write(\' \'); }'
+        ops = ['a[i] = noisy(j);', 'a[i] = %s;' % divx] + (['a[i] += noisy(j);', 'a[i] /= j;', 'a[i] %= noisy(j) - 3;'] if el == 'int' else [])
+        for op in ops:
+            body = 'write("<"); %s write(">"); %s' % (op, dump)
+            grid5 = [Cfg((str(i), str(j)), w, 200, False) for i in (-1, 0, 3, 4, 5) for j in (0, 1, 2) for w in ws]
+            units.append((pre + 'empty @is_you(int i, int j) { %s[] a = %s; %s }\n' % (el, lit, body), grid5))
+            units.append((pre + '%s[] a = %s;\nempty @is_you(int i, int j) { %s }\n' % (el, lit, body), grid5))
+            units.append((pre + 'empty st(%s[] a, int i, int j) { %s }\nempty @is_you(int i, int j) { %s[] q = %s; st(q, i, j); }\n' % (el, body, el, lit), grid5))
+            units.append((pre + 'empty @is_you(int i, int j) { %s a[4]; for (int k = 0; k < 4; k += 1) { a[k] = noisy(k); } %s }\n' % (el, body), grid5))
     # nonlocal preempt at return
     src = ('empty !baba(int c) { if (c > 5) { preempt { write("p"); } } write("b"); }\n'
            'empty @is_you(int a, int b) { try { write("<"); !baba(a); !truth_is_defeat(b > 0); write(">"); } undo { write("U"); } write("."); }\n')
